@@ -209,6 +209,9 @@ class Gen:
                 continue
             if depth > 0 and r > 1.0 - f.get("nest", 0.0):
                 iname = self.fresh(name + "_in")
+                if f.get("prefix_inner", 0.3) > rng.random() and len(prog["inner"]) < 4:
+                    # inner DAGs whose names are prefixes of each other, the LONGER name nested first (stage11 before stage1)
+                    iname = "%s_inn%s" % (name, "1" * (4 - len(prog["inner"])))
                 flagged = allow_flags and rng.random() < f.get("nest_flag", 0.0)
                 ip = self.program(depth - 1, iname, allow_flags=(not flagged) and allow_flags and rng.random() < 0.5, is_inner=True,
                                   parent_specs=specs, bad_ok=bad_ok and not flagged)
